@@ -555,7 +555,8 @@ func (d *Decoder) decodeSymbolTo(v reflect.Value) error {
 			}
 			return d.attachAnnotations(v)
 		}
-		return d.decodeToStructWithAnnotation(v, symbolType.Kind())
+		// The mapping lets a symbol go to a string as well as to a SymbolToken.
+		return d.decodeToStructWithAnnotation(v, symbolType.Kind(), reflect.String)
 
 	case reflect.Interface:
 		if v.NumMethod() == 0 {
